@@ -7,6 +7,8 @@ Row encoding (no spaces): `field,kind,phase,role,held,rel,acq` with `kind ∈ {R
 
 * `pair <rowA> <rowB>`      → `conflict=<0|1> ordered=<0|1> ok=<0|1>`
 * `racefree <row> <row> …`  → `true` | `false i:j,i:j,…` (unordered conflicting pairs, i ≤ j)
+* `grouped <row> <row> …`   → `grouped=<0|1> sorted=<0|1> racefree=<0|1>` (the kernel's decision `raceFreeG`)
+* `frozen <field> <row> …`  → `<0|1>` (`frozenInB`: no live write row of that field)
 -/
 namespace ScVerif.C11
 open ScVerif.Line
@@ -50,6 +52,14 @@ def handle (toks : List String) : String :=
       if raceFreeB tbl then "true"
       else "false " ++ ",".intercalate ((badPairs tbl).map fun (i, j) => s!"{i}:{j}")
     | none => "!bad-op"
+  | "grouped" :: rows =>
+    match rows.mapM parseRow? with
+    | some tbl => s!"grouped={bit (raceFreeG tbl)} sorted={bit (sortedByFieldB tbl)} racefree={bit (raceFreeB tbl)}"
+    | none => "!bad-op"
+  | "frozen" :: f :: rows =>
+    match parseNat? f, rows.mapM parseRow? with
+    | some f, some tbl => bit (frozenInB tbl f)
+    | _, _ => "!bad-op"
   | _ => "!bad-op"
 
 end ScVerif.C11
